@@ -180,7 +180,7 @@ def validate_file(path, timeout=2400):
     return r
 
 
-NEG_KINDS = ("BlockInvalid", "Panic", "NegControl")
+NEG_KINDS = ("BlockInvalid", "Panic", "NegControl", "Crash")
 
 
 def main(tier, seed, replay=None):
